@@ -17,7 +17,8 @@ LEVEL = "exploration"
 EXHAUSTIVE = True
 RULE = (
     "all (dim in 1..3) x (order in 0..5, 'max') x {gauss on [-1,1]^d, gauss_reference_cell on [0,1]^d} + reference_cell_corners(dim); "
-    "per rule: count/positivity/measure and every monomial with per-variable degree <= 2n-1. Non-trivial = the rule is offered (no "
+    "per rule: count/positivity/measure and every monomial with per-variable degree <= 2n-1; the rule in use inside transport_density per L1 mode on "
+    "generic grids and grids with single-cell axes; every (modify one returned rule in place, request any rule again) pair. Non-trivial = the rule is offered (no "
     "NotImplementedError); distinct = distinct (function, dim, order)."
 )
 ASSUMPTIONS = ["float64 evaluation of monomials, tolerance 1e-13"]
@@ -41,6 +42,11 @@ def cases(tier):
     for dim in (1, 2, 3):
         for mode in ("RAVIART_THOMAS", "CONSTANT_SUBCELL_PROJECTION", "CONSTANT_CELL_PROJECTION"):
             out.append({"fn": "rule-in-use", "dim": dim, "mode": mode})
+            # grids with single-cell axes (one page / one row of voxels)
+            for shape in {2: [(4, 1), (1, 4)], 3: [(4, 3, 1), (4, 1, 3), (1, 4, 3), (4, 1, 1), (1, 1, 4)]}.get(dim, []):
+                out.append({"fn": "rule-in-use", "dim": dim, "mode": mode, "shape": list(shape)})
+    # what a request returns is the caller's: changing it in place must not change later requests
+    out.append({"fn": "results-owned"})
     return out
 
 
@@ -71,6 +77,44 @@ def run_case(case, r):
                 except NotImplementedError:
                     r.fail(f"C15/default-rules/dim={dim},order={order}", "the rule selected by default must be offered")
         return
+    if fn == "results-owned":
+        import darsia.measure.wasserstein as W
+
+        reqs = [("gauss", d, o) for d in (1, 2, 3) for o in ORDERS] + [("gauss_reference_cell", d, o) for d in (1, 2, 3) for o in ORDERS] + [("reference_cell_corners", d) for d in (1, 2, 3)]
+
+        def ask(req):
+            try:
+                p, w = getattr(q, req[0])(*req[1:])
+                return np.asarray(p), np.asarray(w)
+            except NotImplementedError:
+                return None
+
+        first = {req: ask(req) for req in reqs}
+        snap = {req: None if v is None else (v[0].copy(), v[1].copy()) for req, v in first.items()}
+        # the rule in use before anything was modified (corner rule: CONSTANT_SUBCELL_PROJECTION)
+        grid = darsia.Grid((4, 3), [0.5, 2.0])
+        flux = np.arange(1.0, grid.num_faces + 1)
+        dens0 = {m: W.WassersteinDistanceNewton(grid, None, {"l1_mode": getattr(W.L1Mode, m)}).transport_density(flux.copy(), weighted=False, flatten=False) for m in ("RAVIART_THOMAS", "CONSTANT_SUBCELL_PROJECTION", "CONSTANT_CELL_PROJECTION")}
+        for req in reqs:
+            if first[req] is None:
+                continue
+            p, w = first[req]
+            try:
+                p += 7.0
+                w *= 0.0
+            except ValueError:
+                pass  # read-only results cannot be spoiled; equally fine
+            for other in reqs:
+                again = ask(other)
+                if snap[other] is None or again is None:
+                    continue
+                r.check(np.array_equal(again[0], snap[other][0]) and np.array_equal(again[1], snap[other][1]), f"C15/results-owned/{other[0]}", "a rule requested after the caller modified an earlier result in place is the rule requested the first time", modified=req, requested=other)
+        for m, d0 in dens0.items():
+            d1 = W.WassersteinDistanceNewton(grid, None, {"l1_mode": getattr(W.L1Mode, m)}).transport_density(flux.copy(), weighted=False, flatten=False)
+            r.check(np.array_equal(d0, d1), f"C15/results-owned/rule-in-use/{m}", "the rule applied by transport_density is not affected by what callers did to rules they requested", mode=m)
+        r.nontriv(("results-owned",))
+        r.outcome(("results-owned", len(reqs)))
+        return
     dim = case["dim"]
     if fn == "rule-in-use":
         # A face flux that is constant (resp. linear) along one axis gives, in the cells away from the
@@ -79,12 +123,12 @@ def run_case(case, r):
         import darsia.measure.wasserstein as W
 
         mode = case["mode"]
-        shape = (5,) if dim == 1 else ((4, 3) if dim == 2 else (4, 3, 2))
+        shape = tuple(case["shape"]) if "shape" in case else ((5,) if dim == 1 else ((4, 3) if dim == 2 else (4, 3, 2)))
         vs = [0.5, 2.0, 0.25][:dim]
         grid = darsia.Grid(shape, vs)
         obj = W.WassersteinDistanceNewton(grid, None, {"l1_mode": getattr(W.L1Mode, mode)})
-        cell = f"C15/rule-in-use/{mode}/dim={dim}"
-        r.nontriv((fn, dim, mode))
+        cell = f"C15/rule-in-use/{mode}/dim={dim}" + ("/single-cell-axis" if min(shape) == 1 and dim > 1 else "")
+        r.nontriv((fn, dim, mode, shape))
         ci = np.asarray(grid.cell_index)
         for d in range(dim):
             if shape[d] < 3:
@@ -109,7 +153,7 @@ def run_case(case, r):
                             break
                 if ok:
                     r.ok()
-        r.outcome((fn, dim, mode))
+        r.outcome((fn, dim, mode, shape))
         return
     if fn == "reference_cell_corners":
         pts, w = q.reference_cell_corners(dim)
